@@ -61,15 +61,17 @@ class _TemplateBuildDistinguisherMixin(partitioned._PartitionnedDistinguisherBas
         self.pooled_covariance = _np.zeros((self._trace_length, self._trace_length))
         self.pooled_covariance_inv = _np.empty((self._trace_length, self._trace_length))
 
-        tmp_counters = _np.copy(self._counters).astype(self.precision)
-        if _np.any(tmp_counters <= 1):
+        counters = _np.copy(self._counters).astype(self.precision)
+        if _np.any(counters <= 1):
             logger.warning('Some template categories have less than 2 traces to build template')
+        # Class means use the true counts; only the (n - 1) divisor of the covariance is guarded.
+        tmp_counters = _np.copy(counters)
         tmp_counters[tmp_counters <= 1] = 2
 
-        templates = (self._exi.swapaxes(0, 1) / tmp_counters).swapaxes(0, 1)
+        templates = (self._exi.swapaxes(0, 1) / _np.maximum(counters, 1)).swapaxes(0, 1)
         tmp_matrix = None
         for i, p in enumerate(self.partitions):
-            tmp_matrix = (_np.outer(templates[i], templates[i]) * tmp_counters[i])
+            tmp_matrix = (_np.outer(templates[i], templates[i]) * counters[i])
             self.pooled_covariance += (self._exxi[i] - tmp_matrix) / (tmp_counters[i] - 1)
 
         self.pooled_covariance /= len(self.partitions)
